@@ -60,6 +60,8 @@ enum K {
     Struct0,
     /// struct with one field (symbolic name) holding a symbolic int
     Struct1,
+    /// struct with one field (symbolic name) holding a symbolic bool
+    Struct1Bool,
     /// fact with no keys / values
     Fact0,
     /// fact with one int key and one int value (symbolic names)
@@ -95,6 +97,14 @@ fn value_of(k: K) -> Value {
         K::Struct1 => {
             let mut fields = BTreeMap::new();
             core::mem::forget(fields.insert(any_ident(), Value::Int(kani::any())));
+            Value::Struct(Struct {
+                name: any_ident(),
+                fields,
+            })
+        }
+        K::Struct1Bool => {
+            let mut fields = BTreeMap::new();
+            core::mem::forget(fields.insert(any_ident(), Value::Bool(kani::any())));
             Value::Struct(Struct {
                 name: any_ident(),
                 fields,
@@ -760,18 +770,14 @@ step_harness!(c25_step_savesp, unwind 2, Instruction::SaveSP, NO_TABLES, IO0(), 
     kani::cover!(o == EXEC, "save sp executes");
     assert!(o == EXEC);
 });
-step_harness!(c25_step_restoresp_nothing_saved, unwind 2, Instruction::RestoreSP, NO_TABLES, IO0(), &FULL, ncs 0, shape 0, |o| {
-    kani::cover!(o == ERR, "restore sp without saved sp");
-    assert!(o == ERR);
-});
 // the pop loop of RestoreSP runs up to STACK_SIZE - 1 times
-step_harness!(c25_step_restoresp, unwind 7, Instruction::RestoreSP, NO_TABLES, IO0(), &FULL, ncs 2, shape 0, |o| {
+step_harness!(c25_step_restoresp_saved, unwind 7, Instruction::RestoreSP, NO_TABLES, IO0(), &FULL, ncs 2, shape 0, |o| {
     kani::cover!(o == EXEC, "restore sp executes");
     kani::cover!(o == ERR, "restore sp: too many values consumed");
 });
 
 // ---- scope ------------------------------------------------------------------------------------
-step_harness!(c25_step_def, unwind 2, Instruction::Def(any_ident()), T_GLOBALS, IO0(), &[MIX], ncs 0, shape 1, |o| {
+step_harness!(c25_step_def_local, unwind 2, Instruction::Def(any_ident()), T_GLOBALS, IO0(), &[MIX], ncs 0, shape 1, |o| {
     // a local exists (maybe the same name), a global exists (maybe the same name)
     kani::cover!(o == EXEC, "def defines");
     kani::cover!(o == ERR, "def: already defined");
@@ -781,37 +787,21 @@ step_harness!(c25_step_def_no_block, unwind 2, Instruction::Def(any_ident()), NO
     kani::cover!(o == ERR, "def without block");
     assert!(o != EXEC);
 });
-step_harness!(c25_step_def_no_function_scope, unwind 2, Instruction::Def(any_ident()), NO_TABLES, IO0(), &[SCALARS], ncs 0, shape 4, |o| {
-    kani::cover!(o == ERR, "def without function scope");
-    assert!(o != EXEC);
-});
-step_harness!(c25_step_get, unwind 2, Instruction::Get(any_ident()), T_GLOBALS, IO0(), &FULL, ncs 0, shape 2, |o| {
+step_harness!(c25_step_get_local, unwind 2, Instruction::Get(any_ident()), T_GLOBALS, IO0(), &FULL, ncs 0, shape 2, |o| {
     kani::cover!(o == EXEC, "get finds a value");
     kani::cover!(o == ERR, "get: not defined");
     kani::cover!(o == ERR_OVERFLOW, "get on full stack");
 });
-step_harness!(c25_step_get_no_function_scope, unwind 2, Instruction::Get(any_ident()), T_GLOBALS, IO0(), &[FILL], ncs 0, shape 4, |o| {
-    kani::cover!(o == EXEC, "get finds a global without function scope");
-    kani::cover!(o == ERR, "get: not defined, no function scope");
-});
-step_harness!(c25_step_block, unwind 2, Instruction::Block, NO_TABLES, IO0(), &[FILL], ncs 0, shape 1, |o| {
+step_harness!(c25_step_block_enter, unwind 2, Instruction::Block, NO_TABLES, IO0(), &[FILL], ncs 0, shape 1, |o| {
     kani::cover!(o == EXEC, "block enters");
     assert!(o == EXEC);
 });
-step_harness!(c25_step_block_no_function_scope, unwind 2, Instruction::Block, NO_TABLES, IO0(), &[FILL], ncs 0, shape 4, |o| {
-    kani::cover!(o == ERR, "block without function scope");
-    assert!(o == ERR);
-});
-step_harness!(c25_step_end, unwind 2, Instruction::End, NO_TABLES, IO0(), &[FILL], ncs 0, shape 1, |o| {
+step_harness!(c25_step_end_leave, unwind 2, Instruction::End, NO_TABLES, IO0(), &[FILL], ncs 0, shape 1, |o| {
     kani::cover!(o == EXEC, "end leaves the block");
     assert!(o == EXEC);
 });
 step_harness!(c25_step_end_no_block, unwind 2, Instruction::End, NO_TABLES, IO0(), &[FILL], ncs 0, shape 3, |o| {
     kani::cover!(o == ERR, "end without block");
-    assert!(o == ERR);
-});
-step_harness!(c25_step_end_no_function_scope, unwind 2, Instruction::End, NO_TABLES, IO0(), &[FILL], ncs 0, shape 4, |o| {
-    kani::cover!(o == ERR, "end without function scope");
     assert!(o == ERR);
 });
 
@@ -841,11 +831,6 @@ step_harness!(c25_step_return_outermost, unwind 2, Instruction::Return, NO_TABLE
 step_harness!(c25_step_return_to_caller, unwind 2, Instruction::Return, NO_TABLES, IO0(), &[MIX], ncs 1, shape 5, |o| {
     kani::cover!(o == EXEC, "return to caller");
     assert!(o == EXEC);
-});
-// call state says "inside a call" but no function scope is left
-step_harness!(c25_step_return_no_function_scope, unwind 2, Instruction::Return, NO_TABLES, IO0(), &[MIX], ncs 2, shape 4, |o| {
-    kani::cover!(o == ERR, "return without function scope");
-    assert!(o == ERR);
 });
 step_harness!(c25_step_extcall, unwind 2, Instruction::ExtCall(kani::any(), kani::any()), NO_TABLES, IO0(), &full_with_top(MIX), ncs 0, shape 0, |o| {
     kani::cover!(o == EXEC, "external call returns");
@@ -928,11 +913,6 @@ step_harness!(c25_step_mstructset_1, unwind 2, Instruction::MStructSet(NonZeroUs
     kani::cover!(o == ERR, "mstruct.set 1: schema error");
     kani::cover!(o == ERR_TYPE, "mstruct.set 1: wrong types");
 });
-step_harness!(c25_step_mstructset_2, unwind 3, Instruction::MStructSet(NonZeroUsize::MIN.saturating_add(1)), T_STRUCTS, IO0(),
-    &[STRUCTS, IDENTS, SCALARS, IDENTS, SCALARS], ncs 0, shape 0, |o| {
-    kani::cover!(o == EXEC, "mstruct.set 2 executes");
-    kani::cover!(o == ERR_UNDERFLOW, "mstruct.set 2 on short stack");
-});
 step_harness!(
     /// EXPECTED TO FAIL on the pinned tree: the operand of `MStructSet` goes unchecked into
     /// `Vec::with_capacity(n)`, which panics ("capacity overflow") for large n.
@@ -943,11 +923,6 @@ step_harness!(c25_step_mstructget_1, unwind 2, Instruction::MStructGet(NonZeroUs
     kani::cover!(o == EXEC, "mstruct.get 1 executes");
     kani::cover!(o == ERR, "mstruct.get 1: no such member");
     kani::cover!(o == ERR_TYPE, "mstruct.get 1: wrong types");
-});
-// operand far larger than the stack: pops until underflow, nothing is allocated from the operand
-step_harness!(c25_step_mstructget_huge, unwind 3, Instruction::MStructGet(NonZeroUsize::MAX), NO_TABLES, IO0(), &[IDENTS], ncs 0, shape 0, |o| {
-    kani::cover!(o == ERR_UNDERFLOW, "mstruct.get usize::MAX underflows");
-    assert!(o >= ERR);
 });
 step_harness!(c25_step_cast, unwind 2, Instruction::Cast(any_ident()), T_STRUCTS, IO0(), &[STRUCTS], ncs 0, shape 0, |o| {
     kani::cover!(o == EXEC, "cast executes");
@@ -973,16 +948,11 @@ step_harness!(c25_step_delete, unwind 2, Instruction::Delete, NO_TABLES, IO0(), 
     kani::cover!(o == EXEC, "delete executes");
     kani::cover!(o == ERR, "delete: io error");
 });
-step_harness!(c25_step_update_nothing_found, unwind 2, Instruction::Update, NO_TABLES, Io::new(0, 1, 1), &[FACTS, FACTS], ncs 0, shape 0, |o| {
-    kani::cover!(o == ERR, "update: nothing to replace / io error");
-    kani::cover!(o == ERR_TYPE, "update: not facts");
-    assert!(o != EXEC);
-});
-step_harness!(c25_step_update, unwind 2, Instruction::Update, NO_TABLES, Io::new(1, 1, 1), &[FACTS, FACTS], ncs 0, shape 0, |o| {
+step_harness!(c25_step_update_found, unwind 2, Instruction::Update, NO_TABLES, Io::new(1, 1, 1), &[FACTS, FACTS], ncs 0, shape 0, |o| {
     kani::cover!(o == EXEC, "update executes");
     kani::cover!(o == ERR, "update: value mismatch / io error");
 });
-step_harness!(c25_step_query, unwind 3, Instruction::Query, T_FACTS, Io::new(1, 1, 1), &full_with_top(FACTS), ncs 0, shape 0, |o| {
+step_harness!(c25_step_query_first, unwind 4, Instruction::Query, T_FACTS, Io::new(1, 1, 1), &full_with_top(FACTS), ncs 0, shape 0, |o| {
     kani::cover!(o == EXEC, "query executes");
     kani::cover!(o == ERR, "query: bad literal / io error");
     kani::cover!(o == ERR_TYPE, "query: not a fact");
@@ -994,10 +964,6 @@ step_harness!(c25_step_factcount, unwind 3, Instruction::FactCount(kani::any()),
 step_harness!(c25_step_querystart, unwind 2, Instruction::QueryStart, T_FACTS, Io::new(1, 1, 1), &[FACTS], ncs 0, shape 0, |o| {
     kani::cover!(o == EXEC, "query.start executes");
     kani::cover!(o == ERR, "query.start: bad literal / io error");
-});
-step_harness!(c25_step_querynext_no_cursor, unwind 2, Instruction::QueryNext(any_ident()), NO_TABLES, IO0(), &FULL, ncs 0, shape 0, |o| {
-    kani::cover!(o == ERR, "query.next without a cursor");
-    assert!(o == ERR);
 });
 
 /// query.next with one cursor holding `left` answers.
@@ -1014,23 +980,18 @@ fn querynext(left: usize) -> u8 {
 
 #[kani::proof]
 #[kani::stub(alloc::fmt::format, fmt_stub)]
-#[kani::unwind(2)]
-fn c25_step_querynext_end_of_results() {
-    let n = querynext(0);
-    kani::cover!(n == EXEC, "query.next: end of results");
-    kani::cover!(n == ERR_OVERFLOW, "query.next on full stack");
-}
-
-#[kani::proof]
-#[kani::stub(alloc::fmt::format, fmt_stub)]
-#[kani::unwind(3)]
+#[kani::unwind(4)]
 fn c25_step_querynext_result() {
     let n = querynext(1);
     kani::cover!(n == EXEC, "query.next binds a result");
     kani::cover!(n == ERR, "query.next: io error / name already defined");
 }
 
-step_harness!(c25_step_serialize, unwind 3, Instruction::Serialize, T_STRUCTS, IO0(), &[STRUCTS], ncs 0, shape 0, |o| {
+// struct fields are bools here: an int field would need the 10-iteration varint loop (C26 covers
+// the encodings themselves; this harness is about the instruction's own checks).
+const SER_STRUCTS: &[K] = &[K::Struct0, K::Struct1Bool, K::Int, K::None, K::Fact0];
+step_harness!(c25_step_serialize, unwind 3, Instruction::Serialize, T_STRUCTS, IO0(), &[SER_STRUCTS], ncs 0, shape 0, |o| {
+    kani::cover!(o == EXEC, "serialize executes");
     kani::cover!(o == ERR, "serialize: wrong context / schema");
 });
 const BYTES: &[K] = &[K::Bytes, K::Int];
@@ -1133,41 +1094,3 @@ fn c25_from_module_bad_labels() {
     core::mem::forget(m);
 }
 
-// ---- temporary experiments (to be removed) ----
-fn xp(symctx: bool, symdepth: bool, kinds: &'static [K], shape: u8) {
-    let m = machine1(Instruction::Def(ident!("a")), NO_TABLES);
-    let mut io = Io::new(0, 0, 0);
-    let ctx = if symctx { any_ctx() } else { CommandContext::Open(OpenContext { name: ident!("a") }) };
-    let mut rs = RunState::new(&m, &mut io, ctx);
-    let push = if symdepth { kani::any() } else { true };
-    if push {
-        if let Err(v) = rs.stack.0.push(any_value(kinds)) {
-            core::mem::forget(v);
-        }
-    }
-    shape_scope(&mut rs, shape);
-    let r = rs.step();
-    core::mem::forget(r);
-    core::mem::forget(rs);
-    core::mem::forget(m);
-}
-#[kani::proof]
-#[kani::stub(alloc::fmt::format, fmt_stub)]
-#[kani::unwind(2)]
-fn xp_v1() { xp(false, false, &[K::Int], 0); }
-#[kani::proof]
-#[kani::stub(alloc::fmt::format, fmt_stub)]
-#[kani::unwind(2)]
-fn xp_v2() { xp(true, false, &[K::Int], 0); }
-#[kani::proof]
-#[kani::stub(alloc::fmt::format, fmt_stub)]
-#[kani::unwind(2)]
-fn xp_v3() { xp(false, true, &[K::Int], 0); }
-#[kani::proof]
-#[kani::stub(alloc::fmt::format, fmt_stub)]
-#[kani::unwind(2)]
-fn xp_v4() { xp(false, false, SCALARS, 0); }
-#[kani::proof]
-#[kani::stub(alloc::fmt::format, fmt_stub)]
-#[kani::unwind(2)]
-fn xp_v5() { xp(false, false, &[K::Int], 3); }
